@@ -5,7 +5,7 @@ From Coq Require Import ZArith List Bool Lia ZifyBool String.
 From V Require Import Base.Int Base.IntLemmas Base.IO Base.Utf8 Base.Lift Model.Scan Model.Parse Model.FromStr Model.Show Model.DateTime
   Model.C09 Spec.Gregorian
   Proofs.C09Show Proofs.C09Time Proofs.C09Date Proofs.C09DateTime Proofs.C09Zoned Proofs.C09Shape Proofs.C09 Proofs.C09Holds
-  Proofs.C09Edge Proofs.HoldsLib.
+  Proofs.C09Edge Proofs.C09EdgeRead Proofs.HoldsLib.
 From V Require Model.Date Model.Time Model.C19 Judge.C09 Proofs.Date Proofs.C08 Proofs.C04.
 Import ListNotations.
 Open Scope Z_scope.
@@ -155,6 +155,33 @@ Proof.
   intros Hv Ht Hd args. destruct (holds_ndt y o s f Hv Ht Hd) as (_ & _ & _ & R0). cbv zeta in R0.
   split; [reflexivity|]. split; [exact R0|]. unfold args. rewrite R0, jd_rt. unfold J.judge_rt, J.spec_text.
   cbn [Z.eqb Pos.eqb orb negb]. rewrite Hv, Ht, Hd. cbn [andb]. unfold judge_eq. cbn [val_eqb]. eexists. reflexivity.
+Qed.
+
+(** on EVERY case of the second finding the model gives the implementation's error, in both forms *)
+Theorem C09_finding_wall_clock y o s f off form : J.valid_date y o = true -> J.valid_time s f = true ->
+  J.time_in_domain s f = true -> J.valid_offset off = true -> off mod 60 = 0 -> form_ok form ->
+  wall_ok y o s off = false ->
+  let args := [VInt 3; VInt form; VTup [VInt y; VInt o; VInt s; VInt f; VInt off]] in
+  known_finding B"tx.rt" args = true /\ run B"tx.rt" args = VErr B"OutOfRange" /\
+  exists why, J.judge B"tx.rt" args (run B"tx.rt" args) = JBad why.
+Proof.
+  intros Hvd Hvt Hd Hvo Hm Hf Hw args.
+  destruct (dec_date_valid y o Hvd) as (_ & Hr & _). pose proof (time_dom_of s f Hvt Hd) as Htd.
+  assert (Hob : -86400 < off < 86400) by (unfold J.valid_offset in Hvo; lia).
+  pose proof (dec_dtz_valid y o s f off Hvd Hvt Hvo) as Hdec.
+  destruct (wall_clock_refused y o _ s f off Hr Htd Hob Hm Hw) as [(t1 & E1 & E2) (t2 & E3 & E4)].
+  assert (R : run B"tx.rt" args = VErr B"OutOfRange").
+  { unfold args. eapply (run_rt 3 form _ (if form =? 1 then t1 else t2)).
+    - unfold show. rewrite (form_neg form Hf). cbn [Z.eqb Pos.eqb]. rewrite Hdec.
+      destruct Hf as [-> | ->]; cbn [Z.eqb Pos.eqb]; [rewrite E3|rewrite E1]; reflexivity.
+    - unfold parse_text. cbn [Z.eqb Pos.eqb]. unfold vres.
+      destruct Hf as [-> | ->]; cbn [Z.eqb Pos.eqb]; [rewrite E4|rewrite E2]; reflexivity. }
+  split.
+  { unfold args, known_finding. rewrite op_rt. cbn [Z.eqb Pos.eqb andb orb]. rewrite Hw. reflexivity. }
+  split; [exact R|]. rewrite R. unfold args. rewrite jd_rt. unfold J.judge_rt, J.spec_text.
+  rewrite (form_neg form Hf). cbn [Z.eqb Pos.eqb orb]. rewrite Hvd, Hvt, Hvo, Hd. cbn [andb].
+  replace (off mod 60 =? 0) with true by lia. destruct (J.wall y o s off) as [[ly lo] ls].
+  unfold judge_eq. cbn [val_eqb]. eexists. reflexivity.
 Qed.
 
 (** the excluded cases of the second finding are exactly those of the recorded matcher: UTC date on
